@@ -12,7 +12,8 @@ RULE_TEXT = ("C10-T: obligations over the HIR and the path summaries of the sing
              "residual of such a call (no Ok, no break/return, no panic exit); T3 nothing follows the failing call; "
              "T4 typestate of the response buffer along every path segment: run -> is_empty test -> "
              "(write, flush, clear) before any read or back-edge, write only when non-empty; T5 the response buffer "
-             "is used only by run/is_empty/write/clear and write's argument is that buffer.")
+             "is used only by run/is_empty/write/clear and write's argument is that buffer."
+             " C10-C04X: execute writes a terminator only after a successful query and nothing otherwise (rule C04-X).")
 
 PROCESS = "microscpi::interface::Interface::process"
 ADAPTER = "microscpi::interface::Adapter::"
@@ -157,6 +158,11 @@ def run(ck):
     ck.judge(not bad_uses, "C10-T5", "process:res_buf-uses", "response buffer touched only by %s" % sorted({u[0] for u in use_sites}),
              "response buffer is also used by %s" % sorted(bad_uses))
     ck.floor("C10-T5", "operations on the response buffer", len(use_sites), 4)
+    # "writes nothing for a message that produced no response": what run puts into the response buffer is decided in
+    # execute - a terminator only after a successful query (the rule of C04, necessary here as well)
+    import c04
+    with ck.under("C04-", "C10-C04"):
+        c04.rule_X(ck, lib)
 
 def response_typestate(ck, exits, res_id, rid):
     """T4: typestate of the response buffer along every path segment."""
